@@ -190,6 +190,16 @@ impl Git {
         self.cmd(dir, &["clean", "-f", "--", "v-*", "snapshot", "meta"])
     }
 
+    /// Return the working tree to the last commit: drop staged and unstaged changes to tracked
+    /// files and remove untracked TaskChampion files. This undoes a write that failed or was
+    /// interrupted part-way. A repository without a commit has nothing to reset to.
+    fn discard_uncommitted(&self, dir: &Path) -> Result<()> {
+        if self.cmd_ok(dir, &["rev-parse", "--verify", "--quiet", "HEAD"])? {
+            self.cmd(dir, &["reset", "--hard", "HEAD"])?;
+        }
+        self.clean_stray_files(dir)
+    }
+
     /// Return how long ago `filename` was last committed in `dir`, or `None` if git has no
     /// record of it. A missing record is treated as "keep".
     fn version_file_age(&self, dir: &Path, filename: &str) -> Result<Option<Duration>> {
@@ -295,6 +305,10 @@ impl GitSyncServer {
             }
         }
 
+        // An interrupted write may have left a modified `meta` naming a version that was never
+        // committed. Go back to the last commit before reading it.
+        git.discard_uncommitted(local_path)?;
+
         // Check for meta file, create and commit if missing.
         let meta_path = local_path.join("meta");
         let meta = match load_meta(&meta_path) {
@@ -396,6 +410,18 @@ impl GitSyncServer {
         let path = self.local_path.join(&filename);
         std::fs::write(&path, Vec::<u8>::from(sealed))?;
         Ok(path)
+    }
+
+    /// Write the version file and the updated meta file, and commit both.
+    fn write_and_commit_version(&mut self, version: &Version) -> Result<()> {
+        let version_path = self.add_version_by_parent_version_id(version)?;
+        self.meta.latest_version = version.version_id;
+        let meta_path = self.write_meta()?;
+        self.git.stage_and_commit(
+            &self.local_path,
+            &[&version_path, &meta_path],
+            "add version",
+        )
     }
 
     /// Find, read, and decrypt the version file whose parent matches `parent_version_id`.
@@ -655,17 +681,15 @@ impl Server for GitSyncServer {
             parent_version_id,
             history_segment,
         };
-        let version_path = self.add_version_by_parent_version_id(&version)?;
-        self.meta.latest_version = version_id;
-        let meta_path = self.write_meta()?;
+        if let Err(e) = self.write_and_commit_version(&version) {
+            // Leave no trace of the failed version, in the working tree or in the cache:
+            // it must not be served as a child, nor named as the latest version.
+            self.git.discard_uncommitted(&self.local_path)?;
+            self.read_meta()?;
+            return Err(e);
+        }
 
-        // Commit and push, reverting if push fails.
-        self.git.stage_and_commit(
-            &self.local_path,
-            &[&version_path, &meta_path],
-            "add version",
-        )?;
-
+        // Push, reverting if push fails.
         if !self.push()? {
             // Push was rejected. Undo the commit. reset_to_remote will fetch, reset --hard,
             // and clean away the stray version file.
